@@ -27,6 +27,7 @@ def run(chk):
     )
     chk.not_decided = "what a multi-hop chain finally sends (value level); proxy credential handling of environment proxies."
     chk.explanation += " Also decided: every local derived from the hop's URL is recomputed in each iteration before any use. After the defect hunt: the rewrite branch resets chunked and closes the dropped payload; a 30x without Location is not counted as a hop; the Location netloc is validated inside the guard."
+    chk.explanation += " Second hunt: the proxy gets no session-default Authorization/Cookie; a body-less request stays body-less on 301/302/307/308; Expect and a caller's Transfer-Encoding go with the dropped body; URL credentials and non-UTF-8 Locations raise ClientErrors; building an attempt does not consume the shared header mapping."
     rq = repo.func(CLIENT, "ClientSession._request")
     g = cfg_of(rq.node)
     red = [i for i in ast.walk(rq.node) if isinstance(i, ast.If) and "resp.status in (301, 302, 303, 307, 308)" in norm.raw(i.test)]
